@@ -255,6 +255,9 @@ func checkC17(c *Ctx, r *Report) {
 		r.Fn(c.FnName(walk))
 		checkWalkFreshMap(c, r, walk, mu)
 	}
+	// the DCMI sensor enumeration reuses one command for every entity: what it hands out per
+	// entity is a list of its own, not the command's response slice (rules shared with C16)
+	checkDCMISensorInfo(c, r)
 
 	checkResponseAlwaysDecoded(c, r)
 
